@@ -79,7 +79,8 @@ class World:
         try:
             if kind == "N":
                 self.nv += 1
-                self.s.on_next(100 + self.nv)
+                # the first two values are None and 0 (falsy values are ordinary elements), later ones fresh ints
+                self.s.on_next((None, 0)[self.nv - 1] if self.nv <= 2 else 100 + self.nv)
             elif kind == "E":
                 self.s.on_error(ERR)
             else:
